@@ -1,7 +1,7 @@
 (** C12 — malformed AML is rejected with an error, never a crash, hang or stray pointer.
     Statements only; every proof is [exact <lemma>] (Aml/LexProofs.v). *)
 From Coq Require Import NArith List.
-From FF Require Import Lib.Word Gen.Consts_device_acpi_aml Aml.Stream Aml.Lex Aml.LexProofs Aml.Tree Aml.TreeSpec Aml.Parser Aml.ParserProofs Aml.ParserProofsTop Aml.ParserTotalFirst Aml.ParserTotalConn Aml.ParserTotalTop Aml.ParserTotalNonNamed Aml.ParserTotalCalls Aml.ParserTotalReloc Aml.ParserTotalMerge Aml.ParserTotalResolve Aml.ParserTotalBase Aml.ParserTotalLex Aml.ParserTotalTree Aml.ParserTotalDefer Aml.ParserTotalDeferW Aml.ParserTotalDeferV.
+From FF Require Import Lib.Word Gen.Consts_device_acpi_aml Aml.Stream Aml.Lex Aml.LexProofs Aml.Tree Aml.TreeSpec Aml.Parser Aml.ParserProofs Aml.ParserProofsTop Aml.ParserTotalFirst Aml.ParserTotalConn Aml.ParserTotalTop Aml.ParserTotalNonNamed Aml.ParserTotalCalls Aml.ParserTotalReloc Aml.ParserTotalMerge Aml.ParserTotalResolve Aml.ParserTotalBase Aml.ParserTotalLex Aml.ParserTotalTree Aml.ParserTotalDefer Aml.ParserTotalDeferW Aml.ParserTotalDeferV Aml.ParserTotalTyped.
 Import ListNotations.
 Local Open Scope N_scope.
 
@@ -484,3 +484,31 @@ Theorem C12_parse_total_partial_nopanic_tail :
     end.
 Proof. exact deferred_tail_never_panics. Qed.
 Print Assumptions C12_parse_total_partial_nopanic_tail.
+
+(** [parse_total_partial] (14), a hypothesis of the later passes DERIVED: the typing hypothesis of resolveMethodCalls - every
+    pOpIntNamePathOrMethodCall object carries a []byte, so that `argObj.value.([]byte)` cannot fail - is preserved by the
+    first four passes run as in parseAML_body ([parse_head]: scopeEnter(0), parseObjectList, connectNamedObjArgs(0), the
+    resolve loop) and by parseDeferredBlocks, from ANY state (partial correctness: whenever they return).  The first pass
+    creates such objects together with their []byte; every other write of a value that is not a []byte hits an object
+    created just before with a different opcode, or an object whose opcode was read just before (parseObjectArgs);
+    nextOpcode never yields that opcode; free only turns objects into free slots.  So the hypothesis of
+    C12_parse_total_partial_nopanic_resolveMethodCalls / _tail holds whenever it holds of the pool ParseAML starts with. *)
+Theorem C12_parse_total_partial_typed_head :
+  forall (fuel : nat) (s : pstate) (b : bool) (s' : pstate),
+    parse_head fuel s = Ok (b, s') ->
+    (forall i o, TreeSpec.get (p_tree s) i = Some o -> o_opcode o <> opFreed -> o_opcode o = aml_pOpIntNamePathOrMethodCall ->
+                 exists tbl sl, o_value o = Some (VBytes tbl sl)) ->
+    (forall i o, TreeSpec.get (p_tree s') i = Some o -> o_opcode o <> opFreed -> o_opcode o = aml_pOpIntNamePathOrMethodCall ->
+                 exists tbl sl, o_value o = Some (VBytes tbl sl)).
+Proof. exact parse_head_typed. Qed.
+Print Assumptions C12_parse_total_partial_typed_head.
+
+Theorem C12_parse_total_partial_typed_deferred :
+  forall (fuel parseFuel : nat) (x : N) (s : pstate) (r : pres) (s' : pstate),
+    parseDeferredBlocks fuel parseFuel x s = Ok (r, s') ->
+    (forall i o, TreeSpec.get (p_tree s) i = Some o -> o_opcode o <> opFreed -> o_opcode o = aml_pOpIntNamePathOrMethodCall ->
+                 exists tbl sl, o_value o = Some (VBytes tbl sl)) ->
+    (forall i o, TreeSpec.get (p_tree s') i = Some o -> o_opcode o <> opFreed -> o_opcode o = aml_pOpIntNamePathOrMethodCall ->
+                 exists tbl sl, o_value o = Some (VBytes tbl sl)).
+Proof. exact parseDeferredBlocks_typed. Qed.
+Print Assumptions C12_parse_total_partial_typed_deferred.
